@@ -674,6 +674,12 @@ class Sym(Interp):
             for v in vals:
                 if v not in u:
                     u.append(v)
+            if len(u) == 2 and len(outs) == 2 and all(k in e for e in outs):
+                # fall-through and one `continue`: a phi over the test on which their paths split, when there is one
+                m = self.join_env(dict(outs[0]), dict(outs[1]))
+                if m is not None and k in m and not (isinstance(T(m[k]), tuple) and T(m[k])[:1] == ("join",)):
+                    nxt[k] = T(m[k])
+                    continue
             nxt[k] = u[0] if len(u) == 1 else (("join", tuple(u)) if u else ("mu", lid, k))
         self.loopinfo[lid] = {"node": s, "iter": T(itv) if itv is not None else None, "test": T(test) if test is not None else None,
                               "init": init, "next": nxt, "changed": sorted(changed), "func": ctx.qname,
